@@ -581,7 +581,7 @@ func syncCheckP(run *core.Run, maxH, unit, maxRollback int, sampleEvery int64, o
 		if hr, ok := err.(*honestRefusal); ok {
 			// not trouble of the driver: the code refuses a valid momentum it has the predecessor of (C02, second sentence)
 			run.Report("C02:honestly-produced-chain-refused-while-building-the-tree", hr.what, map[string]interface{}{"kind": "sync-tree"})
-			return
+			return &syncStats{byErr: map[string]int64{}, byKind: map[string]int64{}}
 		}
 		core.Fatal("sync tree: %v", err)
 	}
